@@ -7,6 +7,8 @@
 //!   10 path rule ad idlen id* hasbase base n (key_ns number)*n nact act*
 //!        path 0: CurveDF::try_new on `Nodes` of the kind given by `ad` (every value of that kind)
 //!        path 1: the Python-facing Curve(nodes, interpolator, ad, id, ...) (values of any kind)
+//!        path 2: as path 0, then saved with to_json, the node entries of the document re-written in SUPPLY order,
+//!                and loaded again with from_json (a third way of supplying nodes in any order)
 //!      act = 0 x            interpolated_value(x)            -> outcome number
 //!            1 x            node_index(x)                    -> outcome idx        (path 0 only)
 //!            2 o            set_ad_order(o)                  -> outcome (nothing)
@@ -17,6 +19,7 @@
 //!      x = timestamp in seconds, key_ns = datetime in nanoseconds since the epoch
 //! output floats are written as 2^64 + IEEE bits so that the driver can compare them with a tolerance.
 use crate::cal::Rd;
+use rateslib::json::JSON;
 use crate::numenc::{read_name, read_names, read_number};
 use crate::{guard, Ints};
 use chrono::{DateTime, NaiveDateTime};
@@ -151,6 +154,69 @@ fn build_df(rule: i128, nodes: Nodes, id: &str, base: Option<f64>) -> AnyCurve {
     }
 }
 
+/// the entries of the node map of a curve document, re-written in the order `order` (timestamps in seconds)
+fn reorder_nodes_text(txt: &str, order: &[i64]) -> String {
+    let start = txt.find("\"nodes\":{").expect("nodes") + "\"nodes\":{".len();
+    // skip the variant tag `"F64":{`
+    let open = start + txt[start..].find('{').expect("variant") + 1;
+    let bytes = txt.as_bytes();
+    let (mut depth, mut i, mut in_str, mut esc) = (1i32, open, false, false);
+    let mut cuts = vec![open];
+    while i < bytes.len() && depth > 0 {
+        let c = bytes[i] as char;
+        if in_str {
+            if esc {
+                esc = false;
+            } else if c == '\\' {
+                esc = true;
+            } else if c == '"' {
+                in_str = false;
+            }
+        } else {
+            match c {
+                '"' => in_str = true,
+                '{' | '[' => depth += 1,
+                '}' | ']' => depth -= 1,
+                ',' if depth == 1 => cuts.push(i + 1),
+                _ => {}
+            }
+        }
+        i += 1;
+    }
+    let close = i - 1;
+    cuts.push(close + 1);
+    let mut entries: Vec<(i64, String)> = vec![];
+    for w in cuts.windows(2) {
+        let e = txt[w[0]..w[1] - 1].to_string();
+        if e.trim().is_empty() {
+            continue;
+        }
+        let key: i64 = e[e.find('"').unwrap() + 1..e[1..].find('"').unwrap() + 1].parse().expect("node key");
+        entries.push((key, e));
+    }
+    let mut outv: Vec<String> = vec![];
+    for k in order {
+        if let Some(p) = entries.iter().position(|(kk, _)| kk == k) {
+            outv.push(entries.remove(p).1);
+        }
+    }
+    outv.extend(entries.into_iter().map(|(_, e)| e));
+    format!("{}{}{}", &txt[..open], outv.join(","), &txt[close..])
+}
+
+macro_rules! reload_in_order {
+    ($c:expr, $order:expr, $($v:ident => $t:ty),*) => {
+        match $c {
+            $(AnyCurve::$v(d) => {
+                let txt = d.to_json().map_err(|_| ())?;
+                let c2: CurveDF<$t, NamedCal> = JSON::from_json(&reorder_nodes_text(&txt, $order)).map_err(|_| ())?;
+                Ok(AnyCurve::$v(c2))
+            })*
+            AnyCurve::Py(_) => Err(()),
+        }
+    };
+}
+
 fn value_with_grads(v: &Number, names: &[String], out: &mut Ints) {
     wnumber(v, out);
     match v {
@@ -197,7 +263,7 @@ fn run_curve(r: &mut Rd) -> Ints {
     let mut out: Ints = vec![];
     // construction
     let built = crate::catch(|| -> Result<AnyCurve, ()> {
-        if path == 0 {
+        if path == 0 || path == 2 {
             let nodes = match ad {
                 0 => Nodes::F64(IndexMap::from_iter(raw.iter().map(|(k, v)| (*k, f64::from(v))))),
                 1 => Nodes::Dual(IndexMap::from_iter(raw.iter().map(|(k, v)| {
@@ -213,7 +279,14 @@ fn run_curve(r: &mut Rd) -> Ints {
                     })
                 }))),
             };
-            Ok(build_df(rule, nodes, &id, base))
+            let built = build_df(rule, nodes, &id, base);
+            if path == 2 {
+                let order: Vec<i64> = raw.iter().map(|(k, _)| k.and_utc().timestamp()).collect();
+                return reload_in_order!(built, &order, LL => LogLinearInterpolator, L => LinearInterpolator,
+                    LZ => LinearZeroRateInterpolator, FF => FlatForwardInterpolator, FB => FlatBackwardInterpolator,
+                    N => NullInterpolator);
+            }
+            Ok(built)
         } else {
             match hk::curve_new(raw.clone(), RULES[rule as usize], adorder(ad), &id, base) {
                 Ok(c) => Ok(AnyCurve::Py(c)),
